@@ -11,6 +11,34 @@ COMMON_NOTE = ('Trusted: Lean 4.33 kernel with axioms propext/Classical.choice/Q
                'every invocation; harness generators, canonicalisation and monitors; ')
 
 CHECKS = {
+    'C01': dict(
+        text='Refinement theorems for CTRFileIO (with its cached-cipher coherence invariant) and TWLCTRFileIO (block '
+             'reversal algebra) over any readable inner file, lifted to every seek/read/tell history, instantiated for '
+             'plain files and windows; AES is a parameter.  Tied to pyctr by differential execution of the compiled '
+             'model (with a Lean AES) against CryptoEngine.create_ctr_io and by an ECB-only keystream monitor.',
+        note=COMMON_NOTE + 'AES-128 enters the theorems as a parameter E (nothing about it is used); the PyCryptodome CTR '
+             'cipher-object protocol and io.BytesIO are modelled library semantics; counter+blocks < 2^128 as in the property.',
+        technique='Lean 4 refinement proof + model/implementation correspondence',
+        design='§4 C01'),
+    'C02': dict(
+        text='cbc_read_pure proves CBCFileIO.read = slice of the whole-stream CBC plaintext for every position and size '
+             'on an ordinary file; a simulation (transfer) theorem lifts it to any readable inner file; read-only-ness '
+             'and unchanged inner content are part of the theorem.  Tied to pyctr by differential execution and an '
+             'ECB+xor monitor with an instrumented base file.',
+        note=COMMON_NOTE + 'AES decryption is a parameter D; PyCryptodome CBC decrypt (length/IV errors) and io.BytesIO are '
+             'modelled; ciphertext length multiple of 16 and 16-byte IV are hypotheses (as in the property).',
+        technique='Lean 4 refinement proof + model/implementation correspondence',
+        design='§4 C02'),
+    'C12': dict(
+        text='Coupling theorems: under every interleaving of seek/read/write the underlying file is the CTR encryption of '
+             'the logical plaintext and every call returns what the plaintext file returns (full strength over windows; '
+             'over growable files for writes that do not start past EOF — the excluded case is a proved counterexample '
+             'C12_gap_witness and a recorded known finding).  Tied to pyctr by differential execution with a '
+             'shadow-plaintext monitor.',
+        note=COMMON_NOTE + 'AES is a parameter; PyCryptodome CTR object protocol (direction lock) and BytesIO modelled; '
+             'partial: gap-creating writes are excluded from the theorem (known finding ctrio.write-past-eof-gap).',
+        technique='Lean 4 refinement proof + model/implementation correspondence',
+        design='§4 C12'),
     'C09': dict(
         text='Refinement theorems (IsFile): BytesIO model, SubsectionIO over any file-like inner object, stacking, '
              'lifted to every operation history, plus frame (no byte outside the window changes) — proved in Lean for '
